@@ -159,6 +159,16 @@ func runC20(w *World, p map[string]int) {
 			err := inst.RemoveWallet(id, pass, t.Bool(50))
 			if err == nil {
 				removed = append(removed, ws)
+				// the same removal requested once more while the first is under
+				// way (a client that retries): whatever the wallet answers, an
+				// accepted task must finish
+				if t.Bool(25) {
+					w.runSteps(t.Int(4))
+					if e2 := inst.RemoveWallet(id, ws.Pass, true); e2 == nil {
+						w.Stat("probe.removal_accepted_twice")
+					}
+					ws.Removing = true
+				}
 			}
 		case 4:
 			// import a previously removed wallet again (if its removal finished)
